@@ -137,7 +137,7 @@ def run(ctx):
             check(ctx, identity, full(64), 1 << rng.randrange(32), full(64), opt, T(40))
             check(ctx, identity, full(64), 1 << rng.randrange(32), T(64), opt, T(40))
         # random shapes
-        for _ in range(700 if ctx.quick else 36000):
+        for _ in range(2000 if ctx.quick else 36000):
             nsat = rng.randint(1, 64)
             nsig = rng.randint(1, max(1, min(32, 64 // nsat)))
             sat = sum(1 << b for b in rng.sample(range(64), nsat))
